@@ -397,14 +397,15 @@ def make_spec(seed, i, j):
         params['tr_radius.gamma_dec'] = float(rng.choice([0.1, 0.5, 0.98]))
         params['tr_radius.gamma_inc'] = float(rng.choice([1.0, 2.0, 5.0]))
         params['tr_radius.gamma_inc_overline'] = float(rng.choice([1.0, 4.0, 10.0]))
-        params['tr_radius.alpha1'] = float(rng.choice([0.01, 0.1, 0.9]))
+        params['tr_radius.alpha1'] = float(rng.choice([1e-4, 1e-3, 0.01, 0.1, 0.9]))    # below 1/250 too
         params['tr_radius.alpha2'] = float(rng.choice([0.05, 0.5, 0.95]))
         if rng.random() < 0.5:
             params['general.safety_step_thresh'] = float(rng.choice([0.1, 0.5, 1.0]))
     if mode == 'regression' and not heavy:
         spec['npt'] = n + 1 + int(rng.integers(1, (n + 1) * (n + 2) // 2 - n))      # up to (n+1)(n+2)/2: no random init
         if rng.random() < 0.6:
-            params['regression.num_extra_steps'] = int(rng.integers(1, 3))
+            # also as many or more extra steps than there are interpolation points (legal: the table has no upper bound)
+            params['regression.num_extra_steps'] = int(rng.integers(1, 3)) if rng.random() < 0.6 else spec['npt'] + int(rng.integers(0, 6))
             if rng.random() < 0.3:
                 params['regression.momentum_extra_steps'] = True
     if mode == 'growing':
@@ -438,6 +439,10 @@ def make_spec(seed, i, j):
         else:
             if rng.random() < 0.3:
                 params['restarts.soft.move_xk'] = False
+            if rng.random() < 0.3:
+                # soft restarts triggered by the slow-progress exit rather than by rhoend
+                params['slow.max_slow_iters'] = int(rng.integers(1, 6))
+                params['slow.thresh_for_slow'] = float(rng.choice([0.5, 2.0]))
             if rng.random() < 0.3:
                 params['restarts.soft.num_geom_steps'] = int(rng.integers(1, 4))
         if rng.random() < 0.7:
